@@ -511,6 +511,8 @@ static bool has_writer(unit const &u)
   return false;
 }
 
+static int TOTAL_OPS_CAP = 1000;
+
 static std::vector<unit> make_units(int nthreads, int maxlen, bool reduced)
 {
   std::vector<unit> us;
@@ -525,7 +527,10 @@ static std::vector<unit> make_units(int nthreads, int maxlen, bool reduced)
       u.pre = pre;
       for (int t = 0; t < nthreads; ++t)
         u.progs.push_back(progs[idx[static_cast<std::size_t>(t)]]);
-      if (has_writer(u))
+      std::size_t total_ops = 0;
+      for (auto const &pr : u.progs)
+        total_ops += pr.size();
+      if (has_writer(u) && total_ops <= static_cast<std::size_t>(TOTAL_OPS_CAP))
         us.push_back(u);
       int k = nthreads - 1;
       while (k >= 0 && ++idx[static_cast<std::size_t>(k)] == progs.size())
@@ -537,11 +542,12 @@ static std::vector<unit> make_units(int nthreads, int maxlen, bool reduced)
   return us;
 }
 
-static void add_family(std::string const &name, int nthreads, int maxlen, bool reduced, int bound, int nshards, std::size_t stride)
+static void add_family(std::string const &name, int nthreads, int maxlen, bool reduced, int bound, int nshards, std::size_t stride, int total_ops_cap = 1000)
 {
   for (int sh = 0; sh < nshards; ++sh)
     vrt::shard(name + "/" + std::to_string(sh), [=] {
       BOUND = bound;
+      TOTAL_OPS_CAP = total_ops_cap;
       std::vector<unit> const us = make_units(nthreads, maxlen, reduced);
       std::string const shard = name + "/" + std::to_string(sh);
       if (vrt::S().cfg.replay)
@@ -589,5 +595,8 @@ int main(int argc, char **argv)
   // family C (thorough): 2 threads, up to 3 operations each, reduced alphabet
   if (th)
     add_family("t2_len3_reduced", 2, 3, true, 2, 32, 1);
+  // family D (thorough): 3 threads, at most 4 operations in total (one thread may do two), reduced alphabet
+  if (th)
+    add_family("t3_total4_reduced", 3, 2, true, 2, 32, 1, 4);
   return vrt::run(argc, argv);
 }
